@@ -1,0 +1,31 @@
+//go:build verif
+
+package sstables
+
+import (
+	"github.com/thomasjungblut/go-sstables/recordio"
+	rProto "github.com/thomasjungblut/go-sstables/recordio/proto"
+)
+
+// VerifOnWriterOpen is called at the end of every successful SSTableStreamWriter.Open, also for writers that are
+// created deep inside memstore flushes and compactions. Installed by the verification harness, nil otherwise.
+var VerifOnWriterOpen func(writer *SSTableStreamWriter)
+
+func verifWriterOpened(writer *SSTableStreamWriter) {
+	if f := VerifOnWriterOpen; f != nil {
+		f(writer)
+	}
+}
+
+// VerifWrapWriters lets the harness wrap the two inner writers (fault injection at the data / index append step).
+func (writer *SSTableStreamWriter) VerifWrapWriters(data func(recordio.WriterI) recordio.WriterI, index func(rProto.WriterI) rProto.WriterI) {
+	if data != nil {
+		writer.dataWriter = data(writer.dataWriter)
+	}
+	if index != nil {
+		writer.indexWriter = index(writer.indexWriter)
+	}
+}
+
+// VerifBasePath returns the directory this writer writes into.
+func (writer *SSTableStreamWriter) VerifBasePath() string { return writer.opts.basePath }
